@@ -67,6 +67,16 @@ def _eq_bytes(got, want):
     return E.and_(*[E.eq(a, b) for a, b in zip(got, want)])
 
 
+async def _submit(d, cmd, via):
+    """Hand a command to the driver directly or as a one-command sequence (both are ways in)."""
+    if via == "send":
+        return await d.send(cmd)
+
+    def seq():
+        yield cmd
+    return await d.run_sequence(seq())
+
+
 # ---------------------------------------------------------------------------------------------
 # HID Tridonic
 
@@ -111,7 +121,7 @@ def h_tridonic_tx(ctx, bits, twice, query):
         return "ok"
 
 
-def h_tridonic_width(ctx):
+def h_tridonic_width(ctx, via="send"):
     with rigs.HidRig(ctx, 9) as rig:
         w = ctx.fresh("w", 1, 64)
         ctx.assume(E.and_(E.ne(w, 16), E.ne(w, 24)))
@@ -123,7 +133,7 @@ def h_tridonic_width(ctx):
             d = await rigs.tridonic_connect(loop, rig)
             n0 = len(rig.os.writes)
             try:
-                await asyncio.wait_for(d.send(cmd), 5)
+                await asyncio.wait_for(_submit(d, cmd, via), 5)
                 out["r"] = "returned"
             except Exception as e:  # noqa
                 out["r"] = e
@@ -175,7 +185,7 @@ def h_hasseb_tx(ctx, twice):
         return "ok"
 
 
-def h_hasseb_width(ctx):
+def h_hasseb_width(ctx, via="send"):
     with rigs.HidRig(ctx, 1) as rig:
         w = ctx.fresh("w", 1, 64)
         ctx.assume(E.ne(w, 16))
@@ -187,7 +197,7 @@ def h_hasseb_width(ctx):
             d.connect()
             await vloop.settle(2)
             try:
-                await asyncio.wait_for(d.send(cmd), 5)
+                await asyncio.wait_for(_submit(d, cmd, via), 5)
                 out["r"] = "returned"
             except Exception as e:  # noqa
                 out["r"] = e
@@ -327,7 +337,7 @@ def h_sci_tx(ctx, bits, twice):
     return "ok"
 
 
-def h_serial_width(ctx, which):
+def h_serial_width(ctx, which, via="send"):
     w = ctx.fresh("w", 1, 64)
     lim = (16, 24) if which == "luba" else (8, 16, 24)
     # widths are refused by byte count: everything that does not pack into 2/3 (1/2/3) bytes
@@ -339,7 +349,7 @@ def h_serial_width(ctx, which):
     async def main(loop):
         d, p, t = (rigs.luba_driver if which == "luba" else rigs.sci_driver)(loop)
         try:
-            await asyncio.wait_for(d.send(cmd), 5)
+            await asyncio.wait_for(_submit(d, cmd, via), 5)
             out["r"] = "returned"
         except Exception as e:  # noqa
             out["r"] = e
@@ -413,7 +423,10 @@ def h_daliserver(ctx, bits, twice, query):
 def h_atx(ctx, bits, twice):
     x, fr = _frame(ctx, bits)
     cmd = rigs.make_command(fr, sendtwice=twice)
-    drv = ATX.DaliHatSerialDriver.__new__(ATX.DaliHatSerialDriver)
+    import types as _t
+    quiet = _t.SimpleNamespace(debug=lambda *a, **k: None, info=lambda *a, **k: None, error=lambda *a, **k: None,
+                               exception=lambda *a, **k: None, warning=lambda *a, **k: None)
+    drv = ATX.DaliHatSerialDriver(port="/dev/verif-no-such-port", LOG=quiet)
     st, line = call(drv.construct, cmd)
     if st == "exc":
         ctx.fail("construct raised %r" % (line,), key="atx/raised")
@@ -486,7 +499,7 @@ def h_legacy_tridonic_sn(ctx):
 
 def h_legacy_hasseb(ctx, twice, query):
     x, fr = _frame(ctx, 16)
-    drv = LH.HassebDALIUSBDriver.__new__(LH.HassebDALIUSBDriver)
+    drv = LH.HassebDALIUSBDriver()
     sn0 = ctx.fresh("sn", 0, 255)
     drv.sn = sn0
     cmd = rigs.make_command(fr, sendtwice=twice, response=C.Response if query else None)
@@ -659,7 +672,14 @@ def cases(tier):
           Case("hasseb-width", h_hasseb_width, {}, width=128, install=rigs.install_tridonic_structs),
           Case("luba-width", h_serial_width, {"which": "luba"}, width=128),
           Case("sci-width", h_serial_width, {"which": "sci"}, width=128),
-          Case("legacy-tridonic-sn", h_legacy_tridonic_sn, {})]
+          Case("legacy-tridonic-sn", h_legacy_tridonic_sn, {}),
+          # the same refusals when the frame arrives inside a sequence
+          Case("tridonic-width-seq", h_tridonic_width, {"via": "sequence"}, width=128,
+               install=rigs.install_tridonic_structs),
+          Case("hasseb-width-seq", h_hasseb_width, {"via": "sequence"}, width=128,
+               install=rigs.install_tridonic_structs),
+          Case("luba-width-seq", h_serial_width, {"which": "luba", "via": "sequence"}, width=128),
+          Case("sci-width-seq", h_serial_width, {"which": "sci", "via": "sequence"}, width=128)]
     for b1, b2, tw in ((24, 16, False), (16, 24, False), (24, 16, True), (16, 16, False)):
         cs.append(Case("tridonic-tx2-%d-%d-%d" % (b1, b2, tw), h_tridonic_tx2,
                        {"bits1": b1, "bits2": b2, "twice2": tw}, install=rigs.install_tridonic_structs))
